@@ -48,7 +48,7 @@ var (
 	c16Errnos      = []string{"EIO", "ENOSPC", "EACCES", "EDQUOT"}
 	c16Global      = []string{"write", "pwrite64", "close", "fsync", "rename", "renameat", "renameat2", "fchmod", "fchmodat", "chmod", "ftruncate", "unlinkat", "fstat", "newfstatat", "fchown", "linkat"}
 	c16PathSys     = []string{"openat", "read"}
-	c16Inputs      = []string{"p-and-missing-list", "p-and-list-with-missing-entry", "unparseable-then-unreadable", "patch-list-is-a-directory", "patch-list-line-too-long", "missing-path-first", "missing-dir-first", "two-missing-paths", "unparseable-source", "unparseable-result", "rewrite-error", "missing-path", "missing-patch", "malformed-patch", "missing-list-entry", "unreadable-source", "unreadable-patch", "directory-named-go", "rewrite-error-plus-other-change", "no-fault", "unparseable-source-of-another-package", "missing-path-below-a-walked-directory"}
+	c16Inputs      = []string{"p-and-missing-list", "p-and-list-with-missing-entry", "unparseable-then-unreadable", "patch-list-is-a-directory", "patch-list-line-too-long", "missing-path-first", "missing-dir-first", "two-missing-paths", "unparseable-source", "unparseable-result", "rewrite-error", "missing-path", "missing-patch", "malformed-patch", "missing-list-entry", "unreadable-source", "unreadable-patch", "directory-named-go", "rewrite-error-plus-other-change", "no-fault", "unparseable-source-of-another-package", "missing-path-below-a-walked-directory", "long-patch-list"}
 	c16ErrnoText   = map[string]string{"EIO": "input/output error", "ENOSPC": "no space left on device", "EACCES": "permission denied", "EDQUOT": "disk quota exceeded", "EFBIG": "file too large"}
 	c16FaultsCache = map[string][]fault{}
 )
@@ -465,6 +465,10 @@ func runC16(ctx *core.Ctx, idx int) *core.Result {
 			extraArgs = append(extraArgs, "nonexistent_b"+fmt.Sprint(tgt)+"/...")
 			expectFailFile, causeWords = "nonexistent_a"+fmt.Sprint(tgt)+".go", []string{"no such file"}
 			alsoNamed = append(alsoNamed, "nonexistent_b"+fmt.Sprint(tgt))
+		case "long-patch-list":
+			// the patches come from a -P list of more than 4 KiB (a hundred entries): every one of them is loaded, the one
+			// that rewrites the files included, wherever it stands in the list. (The baseline names the patch with -p.)
+			patchArgs = []string{"-P", "../longlist.txt"}
 		case "missing-path-below-a-walked-directory":
 			// the directory itself is an argument too, and comes first: the path that does not exist lies (by its
 			// spelling) inside something that has been walked already, and is still a requested path
@@ -528,6 +532,24 @@ func runC16(ctx *core.Ctx, idx int) *core.Result {
 		os.WriteFile(filepath.Join(d, "list.txt"), []byte("p.patch\ngone.patch\n"), 0o644)
 		os.MkdirAll(filepath.Join(d, "listdir"), 0o755)
 		os.WriteFile(filepath.Join(d, "biglist.txt"), []byte(strings.Repeat("x", 70000)+"\n../p.patch\n"), 0o644)
+		if ft.Input == "long-patch-list" {
+			os.MkdirAll(filepath.Join(d, "patches"), 0o755)
+			var list strings.Builder
+			real := []int{0, 57, 99}[tgt%3]
+			for k := 0; k < 100; k++ {
+				name := fmt.Sprintf("patches/%03d-%s.patch", k, strings.Repeat("n", 30))
+				if tgt%2 == 1 {
+					name = fmt.Sprintf("patches/%03d-%s.patch", k, strings.Repeat("v", 1+(k*7)%40)) // entries of different lengths
+				}
+				body := fmt.Sprintf("@@\nvar x expression\n@@\n-zzNever%d(x)\n+zzNever(x)\n", k)
+				if k == real {
+					body = patch
+				}
+				os.WriteFile(filepath.Join(d, name), []byte(body), 0o644)
+				list.WriteString("../" + name + "\n")
+			}
+			os.WriteFile(filepath.Join(d, "longlist.txt"), []byte(list.String()), 0o644)
+		}
 		for _, f := range files {
 			os.WriteFile(filepath.Join(d, "tree", f.name), []byte(f.src), 0o644)
 		}
@@ -732,6 +754,10 @@ func runC16(ctx *core.Ctx, idx int) *core.Result {
 		}
 	}
 	mustReport = len(realNot) > 0 || expectFailFile != ""
+	if cr.Exit != 0 && ft.Kind == "input" && (ft.Input == "no-fault" || ft.Input == "long-patch-list") {
+		res.Violate("C16/failure-without-fault", fmt.Sprintf("[%s] nothing stands in the way of this run, yet exit %d: %s", ft, cr.Exit, core.Trunc(stderr, 300)), rep)
+		return res
+	}
 	if cr.Exit == 0 && mustReport {
 		res.Violate("C16/exit-0-although-not-everything-was-processed", fmt.Sprintf("[%s] not patched: %v, expected failure on %q", ft, realNot, expectFailFile), rep)
 		return res
